@@ -39,7 +39,10 @@ def _has_c(x):
     if isinstance(x, CS):
         return True
     if isinstance(x, onp.ndarray) and x.dtype == object:
-        return any(isinstance(e, (CS, complex, onp.complexfloating)) for e in x.ravel())
+        # entries may themselves be 0-d arrays (np.array of a tuple of 0-d values nests them in object mode)
+        return any(isinstance(e, (CS, complex, onp.complexfloating)) or (isinstance(e, onp.ndarray) and _has_c(e)) for e in x.ravel())
+    if isinstance(x, onp.ndarray):
+        return x.dtype.kind == "c"
     if isinstance(x, (list, tuple)):
         return any(_has_c(e) for e in x)
     return False
